@@ -74,7 +74,9 @@ def main():
         finally:
             run(["git", "-C", "/repo", "worktree", "remove", "--force", wt])
         print("confirm %s: applies=%s clean=%s patched=%s tests=%r" % (name, applies, rc_clean, rc_mut, tail))
-    results = meta.setdefault("checks", {})
+    seed = os.environ.get("VERIF_SEED", "1")
+    # runs at other seeds are kept apart: "checks" always describes the default seed
+    results = meta.setdefault("checks", {}) if seed == "1" else meta.setdefault("other_seeds", {}).setdefault(seed, {})
     chks = [c for c in args.checks.split(",") if c]
     if chks:
         # run the checks against a scratch worktree with the patch applied (VERIF_REPO), so that /repo itself stays
